@@ -401,13 +401,58 @@ def nontrivial(case):
         (case['elkind'].startswith('pair') and len(xs) >= 1)
 
 
+SILENT_BODIES = ['', '<dtml-call "1">', '<dtml-if nosuch>x</dtml-if>',
+                 '<dtml-var blank>', '<dtml-comment>c</dtml-comment>',
+                 '<dtml-unless "1">u</dtml-unless>',
+                 '<dtml-in none>y</dtml-in>', '<dtml-let q=blank></dtml-let>']
+SILENT_OPTS = ['', 'mapping', 'size=2 start=1 orphan=0', 'sort=k',
+               'reverse', 'no_push_item', 'prefix=p', 'size=1 start=2']
+
+
+def check_silent(case):
+    """The else body is rendered exactly when the sequence is empty: a
+    non-empty sequence whose body produces no text renders ''."""
+    from DocumentTemplate import HTML
+    _, L, bi, oi = case
+    opts = SILENT_OPTS[oi]
+    items = [dict(k=i, x=i) for i in range(L)] if 'mapping' in opts else \
+        [El(i, i, i) for i in range(L)]
+    src = '[<dtml-in seq %s>%s<dtml-else>ELSE</dtml-in>]' % (
+        opts, SILENT_BODIES[bi])
+    try:
+        out = HTML(src)(seq=items, blank='', none=[])
+    except Exception as e:
+        return ('silent-exception:%s' % type(e).__name__,
+                '%r on %d elements raised %r' % (src, L, e))
+    exp = '[ELSE]' if L == 0 else '[]'
+    if 'start=2' in opts and L == 1:
+        return None               # start beyond the end: C11's business
+    if out != exp:
+        return ('else-on-non-empty-sequence' if L else 'else-missing',
+                '%r on %d elements rendered %r, expected %r' % (
+                    src, L, out, exp))
+    return None
+
+
 def plan(tier, seed):
     n = 1500 if tier == 'quick' else 8000
-    return [dict(seed=seed * 1000 + i, n=n) for i in range(16)]
+    return [dict(seed=seed * 1000 + i, n=n) for i in range(16)] + \
+        [dict(silent=True)]
 
 
 def run_shard(shard):
     acc = Acc(ID, sample_every=61)
+    if shard.get('silent'):
+        for L in range(0, 4):
+            for bi in range(len(SILENT_BODIES)):
+                for oi in range(len(SILENT_OPTS)):
+                    case = ['silent', L, bi, oi]
+                    bad = check_silent(case)
+                    acc.case(case, L > 0, klass='silent-body',
+                             distinct_by_construction=True)
+                    if bad:
+                        acc.fail(bad[0], case, bad[1])
+        return acc.result()
     strat = strategy()
 
     def one(case):
@@ -427,5 +472,7 @@ def run_shard(shard):
 
 
 def replay(case):
+    if isinstance(case, list) and case and case[0] == 'silent':
+        return check_silent(case)
     b = check(case)
     return b if b and b != 'unspecified' else None
